@@ -521,6 +521,7 @@ func ruleWANewPure(c *Ctx) {
 
 func ruleWALenCnt(c *Ctx) {
 	P := c.P
+	defer ruleWAZero(c)
 	c.Rule("WA-LEN", "the length prefix written before a string or byte payload is the length of those very bytes", 2)
 	for _, ct := range P.CodecTypes() {
 		if !ct.Declared["Write"] {
@@ -672,6 +673,83 @@ func ruleWALenCnt(c *Ctx) {
 	}
 }
 
+// ---------- WA-ZERO
+
+// ruleWAZero: an array or map is a series of blocks ended by a block count of zero. For an empty container
+// the count that is written IS that zero; writing the terminator after it as well gives two zero bytes where
+// the specification has one, and a reader that shares no code with the library takes the second for the next
+// field. So wherever a constant-zero varint follows the count on a path, the count is known non-zero there.
+func ruleWAZero(c *Ctx) {
+	c.Rule("WA-ZERO", "an empty array or map is written as the single byte 0: the zero terminator follows the item count only on paths where the count is known to be non-zero", 2)
+	P := c.P
+	bt := getBT(P)
+	for _, name := range []string{"avro.arrayCodec", "avro.MapCodec"} {
+		ct := bt.byType[name]
+		if ct == nil || ct.M["Write"] == nil {
+			continue
+		}
+		fn := ct.M["Write"]
+		key := ct.Name + ".Write/empty-is-one-zero"
+		var counts, zeros []*CallSite
+		for _, cs := range callsIn(fn) {
+			if cs.Static == nil || qualNameShort(cs.Static) != "(*WriteBuf).Varint" || len(cs.Common.Args) != 2 {
+				continue
+			}
+			if k, isK := constInt(stripConv(cs.Common.Args[1])); isK {
+				if k == 0 {
+					zeros = append(zeros, cs)
+				}
+				continue
+			}
+			counts = append(counts, cs)
+		}
+		if len(counts) == 0 {
+			c.Unk(key, P.pos(fn.Pos()), "no item count written through the write buffer's varint method was found")
+			continue
+		}
+		var bad []string
+		nonZero := func(b *ssa.BasicBlock, count ssa.Value) bool {
+			cv := stripConv(count)
+			for _, f := range cmpFactsAt(b) {
+				x, y, op := stripConv(f.X), stripConv(f.Y), f.Op
+				if k, isK := constInt(x); isK {
+					x, y, op = y, x, swapOp(op)
+					_ = k
+				}
+				k, isK := constInt(y)
+				if !isK || !(x == cv || sameValue(x, cv)) {
+					continue
+				}
+				switch {
+				case op == token.NEQ && k == 0, op == token.GTR && k >= 0, op == token.GEQ && k >= 1:
+					return true
+				}
+			}
+			return false
+		}
+		for _, z := range zeros {
+			for _, cnt := range counts {
+				if !dominatesInstr(cnt.Instr, z.Instr) && !canReachInstr(cnt.Instr, z.Instr) {
+					continue
+				}
+				// either the zero is written only where the count was non-zero, or the count itself is
+				// (then an empty container skips the count and the zero is all it writes)
+				if !nonZero(z.Block, cnt.Common.Args[1]) && !nonZero(cnt.Block, cnt.Common.Args[1]) {
+					bad = append(bad, fmt.Sprintf("the zero written at %s follows the count written at %s on a path where the count may be zero: an empty container is written as two zero bytes", P.pos(z.Instr.Pos()), P.pos(cnt.Instr.Pos())))
+				}
+			}
+		}
+		for i, z1 := range zeros {
+			for j, z2 := range zeros {
+				if i != j && canReachInstr(z1.Instr, z2.Instr) {
+					bad = append(bad, fmt.Sprintf("the zero written at %s can be followed by the zero written at %s: two terminators on one path", P.pos(z1.Instr.Pos()), P.pos(z2.Instr.Pos())))
+				}
+			}
+		}
+		c.Check(len(bad) == 0, key, P.pos(fn.Pos()), fmt.Sprintf("%d count write(s), %d zero write(s): a zero follows a count only where the count was found non-zero", len(counts), len(zeros)), strings.Join(dedup(bad), "; "))
+	}
+}
+
 // ---------- WA-SEL
 
 func ruleWASel(c *Ctx) {
@@ -805,8 +883,10 @@ func ruleWASel(c *Ctx) {
 
 func dedup(xs []string) []string {
 	var out []string
-	for i, x := range xs {
-		if i == 0 || x != xs[i-1] {
+	seen := map[string]bool{}
+	for _, x := range xs {
+		if !seen[x] {
+			seen[x] = true
 			out = append(out, x)
 		}
 	}
